@@ -89,6 +89,10 @@ def run_case(case, which):
     def coherent(L, stepno, opname):
         """clause: lookup by id, membership by id and get() agree with the list contents"""
         items = list(L)
+        for o in list(pool.values()):
+            inlist = any(x is o for x in items)
+            if (o in L) != inlist:
+                return '%r in L is %r but the list %s it' % (o, o in L, 'holds' if inlist else 'does not hold')
         for a in alphabet:
             key = 'id%d' % a
             having = [o for o in items if o.id == key]
@@ -292,6 +296,166 @@ def run_case(case, which):
     return {'obs': obs, 'fails': fails}
 
 
+def run_case_sparse(case, which):
+    """The same history with NO look-up between the operations (a look-up may repair a lazily
+    maintained index): after each step only the list contents and the exception are taken; for an
+    id key any object of the list carrying that id is an acceptable target.  Full coherence is
+    evaluated once, after the last step."""
+    import collada
+    pool = {}
+
+    def O(p):
+        u, a = p
+        if u not in pool:
+            pool[u] = Obj(u, a)
+        return pool[u]
+
+    def K(k):
+        if k is None:
+            return None
+        if k[0] == 'int':
+            return k[1]
+        if k[0] == 'id':
+            return 'id%d' % k[1]
+        return O(k[1])
+    doc = collada.Collada()
+    attr = ATTRS[which % len(ATTRS)]
+    setattr(doc, attr, [O(p) for p in case['init']])
+    fails = []
+    for stepno, op in enumerate(case['ops']):
+        L = getattr(doc, attr)
+        before = list(L)
+        name = op[0]
+
+        def positions(k):
+            if k[0] == 'int':
+                return [k[1]]
+            if k[0] == 'id':
+                return [i for i, x in enumerate(before) if x.id == 'id%d' % k[1]]
+            return []
+        accept = None      # list of acceptable result lists; None = must fail
+        try:
+            if name == 'append':
+                accept = [before + [O(op[1])]]
+            elif name in ('extend', 'iadd'):
+                accept = [before + [O(p) for p in op[1]]]
+            elif name == 'insert':
+                accept = []
+                for p in positions(op[1]):
+                    r = list(before)
+                    r.insert(p, O(op[2]))
+                    accept.append(r)
+            elif name == 'setitem':
+                accept = []
+                for p in positions(op[1]):
+                    r = list(before)
+                    try:
+                        r[p] = O(op[2])
+                        accept.append(r)
+                    except IndexError:
+                        pass
+            elif name in ('delitem', 'pop'):
+                accept = []
+                for p in positions(op[1] if op[1] is not None else ['int', -1]):
+                    r = list(before)
+                    try:
+                        del r[p]
+                        accept.append(r)
+                    except IndexError:
+                        pass
+            elif name == 'remove':
+                k = op[1]
+                accept = []
+                if k[0] == 'obj':
+                    if any(x is O(k[1]) for x in before):
+                        r = list(before)
+                        r.remove(O(k[1]))
+                        accept.append(r)
+                elif k[0] == 'id':
+                    for p in positions(k):
+                        r = list(before)
+                        del r[p]
+                        accept.append(r)
+            elif name == 'clear':
+                accept = [[]]
+            elif name == 'reassign':
+                accept = [[O(p) for p in op[1]]]
+            elif name in ('reverse', 'reassign_rev'):
+                accept = [list(reversed(before))]
+            elif name == 'extend_self':
+                accept = [before + before]
+            elif name == 'bulk_fail':
+                accept = []
+        except Exception:  # noqa
+            accept = []
+        code = 0
+        try:
+            if name == 'append':
+                L.append(O(op[1]))
+            elif name == 'extend':
+                L.extend(make_iterable([O(p) for p in op[1]], op[2] if len(op) > 2 else 'list'))
+            elif name == 'iadd':
+                L += make_iterable([O(p) for p in op[1]], op[2] if len(op) > 2 else 'list')
+            elif name == 'insert':
+                L.insert(K(op[1]), O(op[2]))
+            elif name == 'setitem':
+                L[K(op[1])] = O(op[2])
+            elif name == 'delitem':
+                del L[K(op[1])]
+            elif name == 'pop':
+                L.pop() if op[1] is None else L.pop(K(op[1]))
+            elif name == 'remove':
+                L.remove(K(op[1]))
+            elif name == 'clear':
+                L.clear()
+            elif name == 'reassign':
+                setattr(doc, attr, make_iterable([O(p) for p in op[1]], 'list'))
+            elif name == 'reverse':
+                L.reverse()
+            elif name == 'reassign_rev':
+                setattr(doc, attr, reversed(getattr(doc, attr)))
+            elif name == 'extend_self':
+                L.extend(L)
+            elif name == 'bulk_fail':
+                L.extend(failing_iterable([O(p) for p in op[2]]))
+        except Exception as e:  # noqa
+            code = exc_code(e)
+        now = list(getattr(doc, attr))
+        ids = lambda l: [id(o) for o in l]  # noqa
+        if code != 0:
+            if ids(now) != ids(before):
+                fails.append({'step': stepno, 'op': op, 'kind': 'failed-op-not-noop',
+                              'detail': 'failed %s changed the list (no look-up between operations)' % name})
+            elif accept:
+                fails.append({'step': stepno, 'op': op, 'kind': 'plain-list-succeeds',
+                              'detail': '%s raised (code %d) where a plain list succeeds (no look-up between operations)' % (name, code)})
+        else:
+            if not accept:
+                fails.append({'step': stepno, 'op': op, 'kind': 'plain-list-fails',
+                              'detail': '%s succeeded where a plain list raises (no look-up between operations)' % name})
+            elif not any(ids(now) == ids(a) for a in accept):
+                fails.append({'step': stepno, 'op': op, 'kind': 'positional',
+                              'detail': '%s: list is %r, acceptable: %r (no look-up between operations)' % (name, now, accept[:3])})
+        if fails:
+            break
+    if not fails:
+        L = getattr(doc, attr)
+        items = list(L)
+        for a in case['alphabet']:
+            key = 'id%d' % a
+            having = [o for o in items if o.id == key]
+            g = L.get(key)
+            if having and (g is None or not any(g is o for o in having)):
+                fails.append({'step': len(case['ops']) - 1, 'op': case['ops'][-1], 'kind': 'lookup-incoherent',
+                              'detail': 'after the history (no look-up in between): get(%s) -> %r but list holds %r' % (key, g, having)})
+                break
+            if not having and g is not None:
+                fails.append({'step': len(case['ops']) - 1, 'op': case['ops'][-1], 'kind': 'lookup-incoherent',
+                              'detail': 'after the history (no look-up in between): get(%s) -> %r but no such object in list' % (key, g)})
+                break
+    return {'obs': [], 'fails': fails[:1], 'sparse': True}
+
+
 def shrink(case, kind):
     """Delta-debug the history: drop operations (then initial objects) while the same clause fails."""
     ops = list(case['ops'])
@@ -299,7 +463,7 @@ def shrink(case, kind):
 
     def fails(i, o):
         try:
-            r = run_case(dict(case, init=i, ops=o), 0)
+            r = (run_case_sparse if case.get('sparse') else run_case)(dict(case, init=i, ops=o), 0)
         except Exception:  # noqa
             return False
         return bool(r['fails']) and r['fails'][0]['kind'] == kind
@@ -328,7 +492,7 @@ def main():
         return
     out = []
     for i, case in enumerate(payload['cases']):
-        out.append(run_case(case, payload.get('offset', 0) + i))
+        out.append((run_case_sparse if case.get('sparse') else run_case)(case, payload.get('offset', 0) + i))
     json.dump(out, sys.stdout)
 
 
